@@ -60,7 +60,8 @@ impl TerminationModel {
         use TerminationModel as T;
         match self {
             T::QueryRuntimeLimit { limit, frequency } => {
-                if iteration % frequency == 0 {
+                // a frequency of zero means "check at every iteration" (and must not divide by zero)
+                if *frequency == 0 || iteration % frequency == 0 {
                     let dur = Instant::now().duration_since(*start_time);
                     Ok(dur > *limit)
                 } else {
